@@ -234,6 +234,9 @@ let run_line (line : string) =
                                    (match m.g_field with None -> add "null" | Some f -> out_key f); add "]") ms;
                 add "],\"sub\":"; out_rt sub; add "}") es; add "]") in
          out_rt t
+     | "X" ->   (* DefinitionSchema.expand *)
+         let schema = dict_of (parse_value ()) in
+         out_res (fun d -> add "\"schema\":"; out_value (VDict d)) (expand_top schema)
      | "T" ->   (* build both trees from an error forest *)
          let n = next_int () in
          let errs = rep n parse_error in
